@@ -439,13 +439,14 @@ def check_C16(tier, seed):
     v = Verdict("C16", tier, seed)
     exe = build_driver("asan")
     from . import owncheck
-    c = "own_thorough.cfg" if tier == "thorough" else "own_quick.cfg"
-    res = run_tlc("MC_Own.tla", os.path.join("mc", c))
-    v.add_tlc(c, res, ["P_C16_Solo", "P_C16_NoCrossTalk", "P_C16_Siblings"])
-    for e in res.errors:
-        if "is violated" in e:
-            v.violation("spec:%s" % e[:60], "TLC: %s" % e, {})
-    owncheck.replay(v, exe, res, seed=seed, tag="C16")
+    # thorough: the full alphabet at depth 3 (as in the quick tier) and the core alphabet at depth 4
+    for c in (["own_quick.cfg", "own_thorough.cfg"] if tier == "thorough" else ["own_quick.cfg"]):
+        res = run_tlc("MC_Own.tla", os.path.join("mc", c))
+        v.add_tlc(c, res, ["P_C16_Solo", "P_C16_NoCrossTalk", "P_C16_Siblings"])
+        for e in res.errors:
+            if "is violated" in e:
+                v.violation("spec:%s" % e[:60], "TLC: %s" % e, {})
+        owncheck.replay(v, exe, res, seed=seed, tag="C16")
     v.cov["exhaustive"] = True
     return v.finish(rule="every interleaving up to the bound of operations on two contexts created from the same declarations (parse creating "
                          "nested multi-section instances, free-form keys, assignments and appends; setters; annotation; titled add/remove; "
